@@ -338,6 +338,11 @@ func (s *socket) MaybeUpgrade(transport transports.Transport) {
 			}
 			utils.ClearInterval(checkIntervalTimer.Load())
 			checkIntervalTimer.Store(utils.SetInterval(check, 100*time.Millisecond))
+			if !s.upgrading.Load() {
+				// cleanup ran (on another goroutine) between the test above
+				// and the store: it could not see this timer
+				utils.ClearInterval(checkIntervalTimer.Load())
+			}
 
 		} else if packet.UPGRADE == data.Type && s.ReadyState() != "closed" {
 			socket_log.Debug("got upgrade packet - upgrading")
